@@ -544,8 +544,8 @@ func reportViolation(c Check, sc *Scenario, v *Violation, hang bool, tier string
 			fmt.Printf("MACHINERY: scenario %d exceeded the per-run limit inside a worker but finishes alone; not a violation\n", sc.Index)
 			return 2
 		}
-		if v2.Class == "hang" && id != "C10" {
-			fmt.Printf("MACHINERY: scenario %d does not terminate; termination belongs to C10, not %s\n", sc.Index, id)
+		if (v2.Class == "hang" || v2.Class == "crash") && id != "C10" {
+			fmt.Printf("MACHINERY: scenario %d does not terminate (or kills the process) under %s; termination and process safety belong to C10 - not reported as a violation of %s\n", sc.Index, id, id)
 			return 2
 		}
 		v = v2
